@@ -38,8 +38,15 @@ def expected(header):
     if m.group('opts'):
         for pair in m.group('opts').split(b', '):
             k, v = pair.split(b'=', 1)
-            v = int(v) if INT.fullmatch(v) else v.decode('ascii')
-            opts.setdefault(k.decode('ascii'), []).append(v)
+            if INT.fullmatch(v) and len(v) <= 4300:
+                vals = [int(v)]
+            elif INT.fullmatch(v):
+                # CPython refuses to convert > 4300 digits by default: the
+                # verbatim string is the only faithful report
+                vals = [v.decode('ascii')]
+            else:
+                vals = [v.decode('ascii')]
+            opts.setdefault(k.decode('ascii'), []).extend(vals)
     return (m.group('dots') + m.group('name')).decode('ascii'), opts
 
 
@@ -192,6 +199,7 @@ def plan(tier):
         units.append(('tokens', npairs, k))
     units.append(('prefix',))
     units.append(('contexts',))
+    units.append(('scale',))
     return {
         'units': units,
         'rule': '(a) every byte string over the 16-character alphabet '
@@ -269,6 +277,25 @@ def run_unit(unit, tier):
             one(b'#.change:' + build_tokens(vec, npairs))
         acc.sample({'token_header': repr(b'#.change:' + build_tokens(
             [d[0] for d in doms], npairs))}, 1)
+    elif unit[0] == 'scale':
+        from mc.alphabets import BOUNDARY_SIZES_Q
+        for n in BOUNDARY_SIZES_Q + [9, 10, 11, 99, 100, 101]:
+            v = b'a' * n
+            for h in (b'#.change: k=' + v, b'#.change: ' + v + b'=v',
+                      b'#.change: k=' + v + b'+', b'#.change: k=' + v + b' ',
+                      b'#.change: k=' + b'9' * n, b'#.change: k=-' + b'9' * n,
+                      b'#.change: k=' + b'9' * n + b'_',
+                      b'#.change: ' + b', '.join(b'k%d=v%d' % (i, i)
+                                                 for i in range(n // 8 + 1)),
+                      b'#.change: ' + b', '.join(b'k%d=v%d' % (i, i)
+                                                 for i in range(n // 8 + 1))
+                      + b', ',
+                      b'#.change: ' + b', '.join(b'k%d=v%d' % (i, i)
+                                                 for i in range(n // 8 + 1))
+                      + b',x=1',
+                      b'#.change: a=1, ' + b'b=' + v + b', c=3'):
+                one(h)
+        acc.sample({'scale': 'option values / keys / counts of 9..65537'}, 1)
     elif unit[0] == 'prefix':
         for hashes in (b'#', b'', b'##', b' #'):
             for dots in range(0, 5):
